@@ -109,11 +109,13 @@ class BackendGrid(Contract):
                 if cfg.get('fails') and kind in ('Input', 'Output', 'IOPort'):
                     raise PyRaise({'AttributeError': AttributeError, 'OSError': OSError}[cfg['fails']], ('constructor of the backend port failed',))
                 if kind == 'get_devices':
-                    return [dict(name='in1', is_input=True, is_output=False), dict(name='io1', is_input=True, is_output=True),
+                    return [dict(name='Late', is_input=False, is_output=True),      # the output side of a port whose input side comes last
+                            dict(name='in1', is_input=True, is_output=False), dict(name='io1', is_input=True, is_output=True),
                             dict(name='out1', is_input=False, is_output=True), dict(name='io2', is_input=True, is_output=True),
                             # one entry per direction, the outputs listed in another order than the inputs
                             dict(name='Synth', is_input=True, is_output=False), dict(name='Keys', is_input=True, is_output=False),
-                            dict(name='Keys', is_input=False, is_output=True), dict(name='Synth', is_input=False, is_output=True)]
+                            dict(name='Keys', is_input=False, is_output=True), dict(name='Synth', is_input=False, is_output=True),
+                            dict(name='Late', is_input=True, is_output=False)]
                 return Obj(PortToken, {'name': args[0] if args else None, '_messages': collections.deque(), 'kind': kind})
             f._pyvc_native = True
             return f
@@ -195,7 +197,7 @@ class BackendGrid(Contract):
         else:
             if cfg['devs']:
                 out['three-device-queries-with-the-api'] = len(log) == 3 and all(c[0] == 'get_devices' for c in log) and And(*[api_ok(c) for c in log])
-                out['name-listings-derive-from-the-device-list'] = (list(res[0]), list(res[1]), list(res[2])) == (['in1', 'io1', 'io2', 'Synth', 'Keys'], ['io1', 'out1', 'io2', 'Keys', 'Synth'], ['io1', 'io2', 'Synth', 'Keys'])
+                out['name-listings-derive-from-the-device-list'] = (list(res[0]), list(res[1]), list(res[2])) == (['in1', 'io1', 'io2', 'Synth', 'Keys', 'Late'], ['Late', 'io1', 'out1', 'io2', 'Keys', 'Synth'], ['io1', 'io2', 'Synth', 'Keys', 'Late'])
             else:
                 out['no-devices-without-get_devices'] = [list(x) for x in res] == [[], [], []] and not log
         return out
